@@ -5,7 +5,7 @@ from . import gcx
 
 ID = "C17"
 LEVEL = "exploration"
-BUDGET = {"quick": 1200, "thorough": 100000}
+BUDGET = {"quick": 1200, "thorough": 300000}
 RULE = ("case = history in a fresh Cello Thread (own collector): managed / root / raw allocations of instrumented objects, a "
         "share of them from an arena at addresses chosen so that (addr>>3) falls into a requested residue class modulo the "
         "registry size the insertion will see (same-home pile-ups, last-slot wrap-around, chains across the array end at "
